@@ -149,7 +149,10 @@ impl RpuDataMapping {
             let num_pieces = (curve.num_pivots_minus2 + 1) as usize;
 
             for _ in 0..num_pieces {
-                let mapping_idc = DoviMappingMethod::from(reader.get_ue()?);
+                let mapping_idc = reader.get_ue()?;
+                ensure!(mapping_idc <= 1, "Invalid mapping_idc value: {mapping_idc}");
+
+                let mapping_idc = DoviMappingMethod::from(mapping_idc);
                 curve.mapping_idc = mapping_idc;
 
                 // MAPPING_POLYNOMIAL
